@@ -3,7 +3,7 @@ Does not decide equality of numerical payloads."""
 import ast
 
 from ..cfg import CFG
-from ..core import (AnalysisError, body_nodes, dotted, is_self_attr, key_text, kwarg, names_in,
+from ..core import (AnalysisError, assigned_targets, bound_args, body_nodes, call_name, dotted, is_self_attr, key_text, kwarg, names_in,
                     param_defaults, params, parent, stmts_of, unparse)
 from ..hdf5keys import Extractor, compatible, disc_by_attr
 
@@ -586,9 +586,38 @@ def check_dispatch(prog, rep):
                       'load() must look up memo_load (by h5gr.id) before dispatching', ld.lineno)
 
 
+def _memoizing_loaders(prog):
+    """methods of Hdf5Loader that enter an object for the group they are given: they call
+    self.memorize_load(<own first group parameter>, ..) or pass that parameter on to such a method"""
+    m = prog.module(HIO)
+    meths = {q.split('.', 1)[1]: f for q, f in m.functions.items()
+             if q.startswith('Hdf5Loader.') and q.count('.') == 1}
+    out = set()
+    changed = True
+    while changed:
+        changed = False
+        for name, f in meths.items():
+            pm = params(f)
+            if name in out or len(pm) < 2 or name in ('memorize_load', 'load'):
+                continue
+            g = pm[1]
+            for c in ast.walk(f):
+                if isinstance(c, ast.Call) and isinstance(c.func, ast.Attribute) and \
+                        isinstance(c.func.value, ast.Name) and c.func.value.id == 'self' and \
+                        (c.func.attr == 'memorize_load' or c.func.attr in out) and c.args and \
+                        isinstance(c.args[0], ast.Name) and c.args[0].id == g:
+                    out.add(name)
+                    changed = True
+                    break
+    return out
+
+
 def check_from_hdf5_memo(prog, rep):
     """every from_hdf5 in the package memorizes the object it builds (sharing)."""
     ct = prog.classtable()
+    memoizing = _memoizing_loaders(prog)
+    if 'load_dict' not in memoizing or 'load_list' not in memoizing:
+        raise AnalysisError('Hdf5Loader: load_dict / load_list no longer memorize their group')
     for ci in ct.all:
         f = ci.methods.get('from_hdf5')
         if f is None:
@@ -611,6 +640,26 @@ def check_from_hdf5_memo(prog, rep):
             rep.violation('HDF5-memo-from', ci.module, q, 'not-memorized',
                           '%s can return without hdf5_loader.memorize_load(h5gr, obj): shared '
                           'instances are no longer shared after loading' % q, f.lineno)
+        # a loader method that memorizes the group it is given (load_dict, load_list, ..) enters
+        # ITS result for this very group; memorize_load is a setdefault, so the object built here
+        # must be entered before such a call on the own group, or the memo keeps the bare container
+        grp = pm[2] if len(pm) > 2 else 'h5gr'
+        for n in cfg.nodes:
+            if n.stmt is None or isinstance(n.stmt, (ast.If, ast.For, ast.While)):
+                continue
+            for c in ast.walk(n.stmt):
+                if isinstance(c, ast.Call) and isinstance(c.func, ast.Attribute) and \
+                        c.func.attr in memoizing and c.args and isinstance(c.args[0], ast.Name) \
+                        and c.args[0].id == grp:
+                    rep.instance('HDF5-memo-from', {'function': q, 'call': unparse(c)[:80]})
+                    if not cfg.dominators_like_before(n.stmt, memo):
+                        rep.violation(
+                            'HDF5-memo-from', ci.module, q, 'memo-shadowed:' + c.func.attr,
+                            '`%s` memorizes its own result for the group `%s` before %s has '
+                            'entered the object it builds; memorize_load() keeps the first '
+                            'entry, so a second reference to the saved object loads as the bare '
+                            'container instead of the %s' % (unparse(c)[:70], grp, q, ci.name),
+                            c.lineno)
 
 
 def check_save_reduce(prog, rep):
@@ -882,6 +931,8 @@ def run(prog, rep, tier):
     n = check_arity(prog, rep, tier)
     check_dispatch(prog, rep)
     check_from_hdf5_memo(prog, rep)
+    if check_ctor_roles(prog, rep) < 5:
+        raise AnalysisError('HDF5-ctor-roles: fewer than 5 constructor arguments resolved')
     check_save_reduce(prog, rep)
     check_optional_deref(prog, rep)
     check_new_typestate(prog, rep)
@@ -901,3 +952,160 @@ def run(prog, rep, tier):
         'discovered on this run), state-tuple agreement, call arity on the save/load code, '
         'dispatch-table and memo discipline, decided on the current source. Equality of loaded '
         'numerical payloads is not decided.' % rep.extra.get('hdf5_classes', 0))
+
+
+# ------------------------------------------------------------------ from_hdf5 via the constructor
+def _influence(ct, ci, f, tainted, depth=0, seen=None):
+    """attributes of self whose value (or whether they are set) depends on the parameters in
+    `tainted`: data dependence through locals, control dependence through enclosing tests, and
+    calls of methods of self / base-class constructors (flow-insensitive over-approximation)."""
+    from ..pattern import guards_at
+    seen = seen if seen is not None else set()
+    key = (ci.name, id(f), tuple(sorted(tainted)))
+    if key in seen or depth > 3:
+        return set()
+    seen.add(key)
+    taint = set(tainted)
+    attrs = set()
+
+    def mentions(e):
+        return any(isinstance(n, ast.Name) and n.id in taint for n in ast.walk(e))
+
+    def guarded(node):
+        return any(mentions(e) for _, _, e in guards_at(f, node))
+    changed = True
+    while changed:
+        changed = False
+        for st in stmts_of(f):
+            if isinstance(st, (ast.Assign, ast.AugAssign, ast.AnnAssign)):
+                val = st.value
+                if val is None:
+                    continue
+                hot = mentions(val) or guarded(st)
+                for t in assigned_targets(st):
+                    base = t
+                    while isinstance(base, ast.Subscript):
+                        base = base.value
+                    if isinstance(base, ast.Name) and hot and base.id not in taint:
+                        taint.add(base.id)
+                        changed = True
+                    elif is_self_attr(base) and hot and base.attr not in attrs:
+                        attrs.add(base.attr)
+                        changed = True
+            elif isinstance(st, ast.For) and mentions(st.iter):
+                for n in ast.walk(st.target):
+                    if isinstance(n, ast.Name) and n.id not in taint:
+                        taint.add(n.id)
+                        changed = True
+    for c in body_nodes(f):
+        if not isinstance(c, ast.Call) or not isinstance(c.func, ast.Attribute):
+            continue
+        callee = None
+        skip = True
+        recv = c.func.value
+        if isinstance(recv, ast.Name) and recv.id == 'self':
+            _, callee = ct.resolve_method(ci, c.func.attr)
+        elif isinstance(recv, ast.Call) and call_name(recv) == 'super':
+            owner = [k for k in ci.mro if f in k.methods.values()]
+            _, callee = ct.resolve_method(ci, c.func.attr, after=owner[0] if owner else ci)
+        elif isinstance(recv, ast.Name) and ct.lookup(recv.id, ci.module) is not None and \
+                c.args and isinstance(c.args[0], ast.Name) and c.args[0].id == 'self':
+            bi = ct.lookup(recv.id, ci.module)
+            _, callee = ct.resolve_method(bi, c.func.attr)
+            skip = False
+        if callee is None:
+            continue
+        pn = params(callee)
+        if guarded(c):
+            sub = set(pn) | {'__all__'}
+        else:
+            ba = bound_args(c, callee, skip_self=skip)
+            sub = {p for p, v in ba.items() if mentions(v)}
+        if sub:
+            attrs |= _influence(ct, ci, callee, sub, depth + 1, seen)
+    if '__all__' in tainted:
+        for st in stmts_of(f):
+            for t in assigned_targets(st):
+                base = t
+                while isinstance(base, ast.Subscript):
+                    base = base.value
+                if is_self_attr(base):
+                    attrs.add(base.attr)
+    return attrs
+
+
+def _strip_conv(e):
+    while isinstance(e, ast.Call) and call_name(e) in ('int', 'bool', 'float', 'str', 'tuple',
+                                                       'list') and len(e.args) == 1:
+        e = e.args[0]
+    return e
+
+
+def check_ctor_roles(prog, rep):
+    """HDF5-ctor-roles: a from_hdf5 that rebuilds the object with `cls(...)` hands every loaded
+    value to the constructor parameter that determines the attribute the writer saved under that
+    key (key -> attribute from save_hdf5 along the MRO; parameter -> attributes by data/control
+    dependence through __init__ and its helpers)."""
+    ct = prog.classtable()
+    n = 0
+    for ci in ct.all:
+        f = ci.methods.get('from_hdf5')
+        if f is None:
+            continue
+        calls = [c for c in body_nodes(f) if isinstance(c, ast.Call) and
+                 isinstance(c.func, ast.Name) and c.func.id == 'cls']
+        if not calls:
+            continue
+        _, init = ct.resolve_method(ci, '__init__')
+        if init is None:
+            continue
+        # writer: key -> attribute
+        wkey = {}
+        for k in ci.mro:
+            sv = k.methods.get('save_hdf5')
+            if sv is None:
+                continue
+            for st in stmts_of(sv):
+                if isinstance(st, ast.Assign) and isinstance(st.targets[0], ast.Subscript) and \
+                        unparse(st.targets[0].value).endswith('.attrs') and isinstance(
+                            st.targets[0].slice, ast.Constant) and is_self_attr(st.value):
+                    wkey.setdefault(st.targets[0].slice.value, st.value.attr)
+                for c in ast.walk(st):
+                    if isinstance(c, ast.Call) and isinstance(c.func, ast.Attribute) and \
+                            c.func.attr == 'save' and len(c.args) == 2 and is_self_attr(
+                                c.args[0]) and isinstance(c.args[1], ast.BinOp) and isinstance(
+                                    c.args[1].right, ast.Constant):
+                        wkey.setdefault(c.args[1].right.value, c.args[0].attr)
+        # reader: local -> key
+        rkey = {}
+        for st in stmts_of(f):
+            if isinstance(st, ast.Assign) and len(st.targets) == 1 and isinstance(
+                    st.targets[0], ast.Name):
+                v = _strip_conv(st.value)
+                if isinstance(v, ast.Call) and isinstance(v.func, ast.Attribute):
+                    if v.func.attr == 'get_attr' and len(v.args) == 2 and isinstance(
+                            v.args[1], ast.Constant):
+                        rkey[st.targets[0].id] = v.args[1].value
+                    elif v.func.attr == 'load' and len(v.args) == 1 and isinstance(
+                            v.args[0], ast.BinOp) and isinstance(v.args[0].right, ast.Constant):
+                        rkey[st.targets[0].id] = v.args[0].right.value
+        for c in calls:
+            for p, v in bound_args(c, init).items():
+                v = _strip_conv(v)
+                if not (isinstance(v, ast.Name) and v.id in rkey and rkey[v.id] in wkey):
+                    continue
+                attr = wkey[rkey[v.id]]
+                inf = _influence(ct, ci, init, {p})
+                n += 1
+                rep.instance('HDF5-ctor-roles', {'class': ci.name, 'key': rkey[v.id],
+                                                 'saved_attribute': attr, 'parameter': p,
+                                                 'determines': sorted(inf)[:12]})
+                if attr not in inf:
+                    rep.violation('HDF5-ctor-roles', ci.module, ci.name + '.from_hdf5',
+                                  'role:%s->%s' % (rkey[v.id], p),
+                                  'the value saved from `self.%s` under the key %r is passed to '
+                                  'the constructor parameter `%s`, which does not determine '
+                                  '`self.%s` (it determines %s): the loaded object differs from '
+                                  'the saved one' % (attr, rkey[v.id], p, attr,
+                                                     sorted(inf)[:8]), c.lineno)
+    return n
